@@ -11,7 +11,7 @@ Results are appended to seeded/RESULTS.md."""
 import glob, json, os, subprocess, sys, shutil, time
 ROOT = os.path.dirname(os.path.abspath(__file__))
 REPO = "/repo"          # replaced by a scratch worktree in main() unless --in-place
-WT = "/tmp/verif-seeded-wt"
+WT = "/tmp/verif-seeded-wt-%d" % os.getpid()
 ENV = dict(os.environ, GOFLAGS="-mod=mod", GOPROXY="off", GOSUMDB="off", GOTOOLCHAIN="local")
 
 def sh(cmd, cwd=None, timeout=3600):
